@@ -214,6 +214,7 @@ type verifPairSnap struct {
 	p                    *CandidatePair
 	state                CandidatePairState
 	nominated, nomOnSucc bool
+	renomOnSucc          bool
 	reqCount             uint16
 	reqRecv, reqSent     uint64
 	respRecv, respSent   uint64
@@ -267,7 +268,7 @@ func (w *verifWorld) snap() verifSnap {
 		s.nLocals += len(l)
 	}
 	for _, p := range a.checklist {
-		s.pairs = append(s.pairs, verifPairSnap{p: p, state: p.state, nominated: p.nominated, nomOnSucc: p.nominateOnBindingSuccess,
+		s.pairs = append(s.pairs, verifPairSnap{p: p, state: p.state, nominated: p.nominated, nomOnSucc: p.nominateOnBindingSuccess, renomOnSucc: p.renominateOnBindingSuccess,
 			reqCount: p.bindingRequestCount, reqRecv: p.requestsReceived, reqSent: p.requestsSent, respRecv: p.responsesReceived,
 			respSent: p.responsesSent, remote: p.Remote})
 	}
@@ -301,6 +302,7 @@ func verifPairSnapEq(x, y verifPairSnap) bool {
 	r = verifAnd(r, x.state == y.state)
 	r = verifAnd(r, x.nominated == y.nominated)
 	r = verifAnd(r, x.nomOnSucc == y.nomOnSucc)
+	r = verifAnd(r, x.renomOnSucc == y.renomOnSucc)
 	r = verifAnd(r, x.reqCount == y.reqCount)
 	r = verifAnd(r, x.reqRecv == y.reqRecv)
 	r = verifAnd(r, x.reqSent == y.reqSent)
